@@ -239,9 +239,21 @@ func dischargeGoal(i int, o *Obligation, goal Term, suffix string, opts SolveOpt
 	unsatCount := 0
 	var satAns *ans
 	done := 0
+	// thorough tier: after a first proof a second back end gets three times as long as the first needed
+	// (plus two seconds) to agree; a back end that cannot decide the query at all is not waited for
+	var second <-chan time.Time
 	for done < nproc {
-		a := <-ch
+		var a ans
+		select {
+		case a = <-ch:
+		case <-second:
+			done = nproc
+			continue
+		}
 		done++
+		if a.answer == "unsat" && unsatCount == 0 && opts.RequireTwo {
+			second = time.After(3*time.Since(start) + 2*time.Second)
+		}
 		res.Per[a.solver] = a.answer
 		if a.answer == "unsat" {
 			unsatCount++
